@@ -279,6 +279,45 @@ func runC01(c *Ctx) {
 			}
 		}
 	}
+	// every registered command from every small planted state (buffer x cursor)
+	plantAlpha := []string{"a", " ", "\"", "\n"}
+	plantL := 2
+	if !quick {
+		plantAlpha = []string{"a", " ", ".", "\"", "\n", "é", "("}
+		plantL = 3
+	}
+	bufs := c02Strings(plantAlpha, plantL)
+	for _, m := range modes {
+		if c.Expired() {
+			c.Cap("internal deadline: planted states for " + m.name + " skipped")
+			break
+		}
+		var enter []harness.Answer
+		if m.km == "vi-command" {
+			enter = Keys("\x1b")
+		}
+		chunk := 600
+		for off := 0; off < len(bufs); {
+			// at most 676 planted states per configuration
+			var part []string
+			cnt := 0
+			for off < len(bufs) && cnt+len([]rune(bufs[off]))+1 <= chunk {
+				cnt += len([]rune(bufs[off])) + 1
+				part = append(part, bufs[off])
+				off++
+			}
+			prc, probes, seeds := plantedSeeds(m.km, part, enter)
+			arc, acts := allBoundRC(m.km)
+			cfg := base
+			cfg.RC = m.rc + arc + prc
+			cfg.Probes = probes
+			sc := &Scenario{Name: m.name + "/planted-states", Cfg: cfg, Seeds: seeds, Alphabet: acts, Depth: 1,
+				Want: harness.Want{Hash: 2, Obs: 1}, Check: check}
+			before := c.Transitions
+			c.BFS(sc)
+			c.Sample(map[string]any{"scenario": sc.Name, "planted_states": len(seeds), "alphabet": len(acts), "transitions": c.Transitions - before})
+		}
+	}
 	c.Extra = map[string]any{"states_by_main/local/waitkind": statesByMode}
 	c.NontrivialN = c.States
 	c.Bounds = map[string]any{"modes": []string{"emacs", "vi-insert", "vi-command (+visual, visual-line, operator-pending, register/find/replace argument waits, macro recording, search)"}, "variants": len(variants) + len(extra), "fault_kinds": faultKinds}
